@@ -20,8 +20,8 @@ RULE = ("two real dilated wormholes with tiny randomised L2 send buffers (one wr
         "Outbound/Inbound state. Non-trivial = at least one transport-initiated pause reached a "
         "registered producer; distinct = decision traces.")
 ASSUMPTIONS = ["Noise stand-in", "state probes read Manager._connection, transport.producerPaused/reading between steps"]
-FLOORS = {"quick": {"probes": 60000, "producer_pauses": 1500, "producer_resumes": 1500, "inbound_pause_calls": 300, "cuts": 60, "unregisters_in_connectionLost": 80, "producers_that_are_false": 100, "producers_left_inside_pause": 50, "pauses_after_connectionLost": 80, "inbound_wakeup_cases_with_a_pause_inside_dataReceived": 30},
-          "thorough": {"probes": 2000000, "producer_pauses": 50000, "producer_resumes": 50000, "inbound_pause_calls": 10000, "cuts": 2000, "unregisters_in_connectionLost": 2500, "producers_that_are_false": 3000, "producers_left_inside_pause": 1500, "pauses_after_connectionLost": 2500, "inbound_wakeup_cases_with_a_pause_inside_dataReceived": 1200}}
+FLOORS = {"quick": {"producers_registered_from_inside_another_ones_turn": 30, "probes": 60000, "producer_pauses": 1500, "producer_resumes": 1500, "inbound_pause_calls": 300, "cuts": 60, "unregisters_in_connectionLost": 80, "producers_that_are_false": 100, "producers_left_inside_pause": 50, "pauses_after_connectionLost": 80, "inbound_wakeup_cases_with_a_pause_inside_dataReceived": 30},
+          "thorough": {"producers_registered_from_inside_another_ones_turn": 600, "probes": 2000000, "producer_pauses": 50000, "producer_resumes": 50000, "inbound_pause_calls": 10000, "cuts": 2000, "unregisters_in_connectionLost": 2500, "producers_that_are_false": 3000, "producers_left_inside_pause": 1500, "pauses_after_connectionLost": 2500, "inbound_wakeup_cases_with_a_pause_inside_dataReceived": 1200}}
 
 
 @implementer(interfaces.IPushProducer)
